@@ -616,6 +616,15 @@ func (g *Gen) inputLiteralDepth(in *TInfo, depth int) (string, bool) {
 	return "{" + strings.Join(parts, ", ") + "}", true
 }
 
+// maybeDirs gives a new type a directive use now and then.
+func (g *Gen) maybeDirs(s *TypeSpec) {
+	if g.T.Bool(1, 5) {
+		if du := g.dirUse(nil); du != "" {
+			s.DirUses = []string{du}
+		}
+	}
+}
+
 func (g *Gen) fields(n int) []FieldSpec {
 	var out []FieldSpec
 	for i := 0; i < n; i++ {
@@ -706,6 +715,7 @@ func (g *Gen) Valid() Fragment {
 				ti.Fields = append(ti.Fields, fi)
 			}
 			g.pending = append(g.pending, ti)
+			g.maybeDirs(s)
 			return Fragment{Kind: "new_interface", Text: s.SDL(), Spec: s}
 		case 3:
 			objs := g.all("object")
@@ -722,6 +732,7 @@ func (g *Gen) Valid() Fragment {
 				}
 			}
 			g.pending = append(g.pending, &TInfo{Kind: "union", Name: s.Name, Members: s.Members})
+			g.maybeDirs(s)
 			return Fragment{Kind: "new_union", Text: s.SDL(), Spec: s}
 		case 4:
 			s := &TypeSpec{Kind: "enum", Name: g.fresh("E")}
@@ -744,10 +755,12 @@ func (g *Gen) Valid() Fragment {
 				ti.Fields = append(ti.Fields, FInfo{Name: f.Name, Type: at.String()})
 			}
 			g.pending = append(g.pending, ti)
+			g.maybeDirs(s)
 			return Fragment{Kind: "new_input", Text: s.SDL(), Spec: s}
 		case 6:
 			s := &TypeSpec{Kind: "scalar", Name: g.fresh("S")}
 			g.pending = append(g.pending, &TInfo{Kind: "scalar", Name: s.Name})
+			g.maybeDirs(s)
 			return Fragment{Kind: "new_scalar", Text: s.SDL(), Spec: s}
 		case 7:
 			s := &TypeSpec{Kind: "directive", Name: g.fresh("d"),
